@@ -62,6 +62,17 @@ def pair_wf(a, b):
     dropped table is still referenced by a surviving table of A"""
     if not (G.schema_wf(a) and G.schema_wf(b)):
         return False
+    # primary-key membership of a surviving column must not change: autogenerate documents that it does not detect
+    # primary key changes, so such a pair (only the independently generated B's produce it) is outside the property
+    for ta in a["tables"]:
+        tb = next((t for t in b["tables"] if t["name"] == ta["name"]), None)
+        if tb is None:
+            continue
+        pka = {c["name"] for c in ta["cols"] if c.get("pk")}
+        pkb = {c["name"] for c in tb["cols"] if c.get("pk")}
+        common = {c["name"] for c in ta["cols"]} & {c["name"] for c in tb["cols"]}
+        if pka & common != pkb & common:
+            return False
     bn = {t["name"] for t in b["tables"]}
     dropped = {t["name"] for t in a["tables"]} - bn
     for t in a["tables"]:
